@@ -359,4 +359,12 @@ theorem mult_spec (k : KV) (u : Rat) (h : ∀ x ∈ k.v, x = u ∨ tol9 ≤ rabs
       rw [sub_self, rabs_zero]; exact tol9_pos
     simp [hne, hxu]
 
+/-- the invariant carried by every reachable state: the list passes validation and the cached degree
+is the one validation derives -/
+def KVInv (k : KV) : Prop := isValid k.v none = true ∧ k.deg = cnt k.v (k.v.headD 0) - 1
+
+theorem inv_of_mk (v : List Rat) (k : KV) (h : KV.mk? v none = .ok k) : KVInv k := by
+  obtain ⟨h1, h2, h3⟩ := mk?_ok v k h
+  exact ⟨by rw [h2]; exact h1, by rw [h2]; exact h3⟩
+
 end NV
